@@ -187,8 +187,13 @@ func checkDelivery(tag string, subs []*sub, pubs [][]byte, ems []emitter, skip m
 				minWant++
 			}
 		}
-		// wait for delivery (bounded)
-		deadline := time.Now().Add(10 * time.Second)
+		// wait for delivery (bounded; once deliveries have gone missing the wait is cut short so that a
+		// broken filter does not cost 10 s per subscriber for the rest of the run)
+		wait := 10 * time.Second
+		if r.GetCount("missing_delivery_waits") >= 3 {
+			wait = 300 * time.Millisecond
+		}
+		deadline := time.Now().Add(wait)
 		for s.st.count() < len(want) && time.Now().Before(deadline) {
 			time.Sleep(200 * time.Microsecond)
 		}
@@ -213,6 +218,7 @@ func checkDelivery(tag string, subs []*sub, pubs [][]byte, ems []emitter, skip m
 			}
 			if k > 0 && c == 0 {
 				ok = false
+				r.Count("missing_delivery_waits", 1)
 				r.Violation(tag+":matching-VAA-not-delivered", w)
 				break
 			}
